@@ -454,24 +454,34 @@ def run_case(case):
             k += 1
             continue
         want = world.run(op)
+        tb_missing = None
         if isinstance(r, dict) and '$raised' in r:
             e = r['$raised']
             got = ('exc', e['$exc'], e['args'])
-            lin.append((op, ('exc', e['$exc'], bool(e.get('remote')) and e.get('tb_has_site', False))))
-            if not e.get('remote') or not e.get('tb_has_site'):
-                mon.append(dict(prop='C14', rule='traceback',
-                                detail=f'op {k} {op["m"]} on {op["addr"]} by client {op["who"]}: {e["$exc"]}{e["args"]} arrived '
-                                       f'without the server-side traceback (remote={e.get("remote")}, tb_len={e.get("tb_len")})'))
-                break
+            tb_ok = bool(e.get('remote')) and bool(e.get('tb_has_site'))
+            lin.append((op, ('exc', e['$exc'], tb_ok)))
+            if not tb_ok:
+                tb_missing = e
         else:
             got = ('ret', norm_remote(r))
             lin.append((op, ('ret', norm_remote(r))))
+        where = (f'op {k} {op["m"]}{op.get("py", op.get("attr"))} on object {op["addr"]} by client {op["who"]}')
         if got != tuple(want):
-            rule = 'managed-alias' if op.get('m') == 'history' else ('error' if got[0] == 'exc' or want[0] == 'exc' else
-                                                                     ('state' if op.get('final') else 'result'))
-            mon.append(dict(prop='C14', rule=rule,
-                            detail=f'op {k} {op["m"]}{op.get("py", op.get("attr"))} on object {op["addr"]} by client {op["who"]}: '
-                                   f'through the proxy {got}, directly {want}'))
+            if op.get('m') == 'history':
+                rule = 'managed-alias'
+            elif got[0] == 'exc' and want[0] == 'ret':
+                rule = 'call-failed'           # e.g. the connection is no longer usable
+            elif got[0] == 'exc' or want[0] == 'exc':
+                rule = 'error'
+            else:
+                rule = 'state' if op.get('final') else 'result'
+            mon.append(dict(prop='C14', rule=rule, detail=f'{where}: through the proxy {got}, directly {want}'))
+            break
+        if tb_missing is not None:
+            e = tb_missing
+            mon.append(dict(prop='C14', rule='traceback',
+                            detail=f'{where}: {e["$exc"]}{e["args"]} arrived without the server-side traceback '
+                                   f'(remote={e.get("remote")}, tb_len={e.get("tb_len")})'))
             break
         k += 1
     else:
